@@ -4,7 +4,7 @@
 
    session_run (Model/ServerRun.v over Base/ServerRun.v) is SessionTask::run as a transition system
    over the list of select! outcomes: parked in run_one: EFrame f (next_frame returned f) |
-   ECommand c | EClosed (recv() = None); parked in write_reply: EWriteDone | ECommand c | EClosed.
+   ECommand c | EClosed (recv() = None); parked in write_reply: EWriteDone | EWriteFailed | ECommand c | EClosed.
    Every arrival order and every tie-break of select! is some event list; all statements are for
    ALL event lists, handler machines, unit maps, policies. The frames are "frames delivered by the
    reader" (C05/C06). *)
@@ -43,6 +43,14 @@ Theorem C01_write_cut : forall (St : Type) (H : handler St) l a units d f b bs u
   session_run H l a units d (EFrame f :: changes levels ++ ev :: post) = ([], units', lg, last levels d, RShutdown).
 Proof. exact @session_write_cut. Qed.
 Print Assumptions C01_write_cut.
+
+(* ... if io.write returns an error the session ends with it (RequestError::Io): handler effects in
+   place, reply not delivered, nothing further handled ... *)
+Theorem C01_write_failed : forall (St : Type) (H : handler St) l a units d f b bs units' lg levels post,
+  handle_frame H l a units f = (Ok (b :: bs), units', lg) ->
+  session_run H l a units d (EFrame f :: changes levels ++ EWriteFailed :: post) = ([], units', lg, last levels d, RIo).
+Proof. exact @session_write_failed. Qed.
+Print Assumptions C01_write_failed.
 
 (* ... and if the write completes first, the reply is delivered and the loop goes on *)
 Theorem C01_write_done : forall (St : Type) (H : handler St) l a units d f b bs units' lg levels rest,
